@@ -701,24 +701,24 @@ Section WithCfg.
 
   Definition clear (v : nat) : M unit := truncate v 0.
 
-  (* src/drop.rs *)
-  Definition drop_handle (h : handle) (v : nat) : M unit :=
-    match h with
-    | Sentinel => ret tt
-    | _ =>
-        x <- hdr_block h ;;
-        let bl := snd x in
-        d <- data v ;;
-        es <- read_list d (h_len bl) ;;
-        drop_list es ;;;
-        lay <- lift_opt (make_layout cfg (h_cap bl) (h_align bl)) ;;
-        do_dealloc h (fst lay) (snd lay)
-    end.
+  (* src/drop.rs, statement by statement (EquivDrop.drop_equiv): return on the never-allocated vector;
+     read the header; drop_in_place(data .. len); dealloc(buf, make_layout(cap, alignment)).  A
+     panicking element destructor leaves the block allocated (a leak). *)
+  Definition drop_body (v : nat) : M unit :=
+    dflt <- is_default v ;;
+    if dflt then ret tt else
+    x <- (h <- vec_handle v ;; hdr_block h) ;;
+    let bl := snd x in
+    d <- data v ;;
+    es <- read_list d (h_len bl) ;;
+    drop_list es ;;;
+    lay <- lift_opt (make_layout cfg (h_cap bl) (h_align bl)) ;;
+    h <- vec_handle v ;;
+    do_dealloc h (fst lay) (snd lay).
 
   (* drop the vector named v (the name becomes free whether or not a destructor panics) *)
   Definition drop_vec (v : nat) : M unit :=
-    h <- vec_handle v ;;
-    try_finally (drop_handle h v) (set_handle v None).
+    try_finally (drop_body v) (set_handle v None).
 
   Definition append (v o : nat) : M unit :=
     ol <- len o ;;
@@ -1032,23 +1032,42 @@ Section WithCfg.
     es <- expose_slice p l ;;
     set_handle v None ;;; ret es.
 
-  (* into_raw_parts followed by from_raw_part / from_raw_parts *)
-  Definition raw_roundtrip (v : nat) (three : bool) : M (Z * Z) :=
-    p <- as_ptr v ;;
-    l <- len v ;; c <- capacity v ;;
+  (* a `*mut T` seen as a byte position inside its block (`ptr.cast::<u8>()`) *)
+  Definition byte_of (p : eptr) : M (nat * Z) :=
     match p with
-    | PElt b off _ =>
-        a <- lift_opt (next_aligned HEADER_SIZE (ealign cfg)) ;;
-        let h := At b (off - a) in
-        (if three && negb (release cfg) then
-           (* debug_assert: the header words read through buf equal length and capacity *)
-           x <- hdr_block h ;;
-           if (h_len (snd x) =? l) && (h_cap (snd x) =? c) then ret tt else panic
-         else ret tt) ;;;
-        set_handle v (Some h) ;;;
-        ret (l, c)
+    | PElt b off i => ret (b, off + i * esz cfg)
     | _ => ub NullDeref
     end.
+
+  (* src/lib.rs, statement by statement (EquivRaw.v): into_raw_parts, from_raw_part, from_raw_parts *)
+  Definition into_raw_parts (v : nat) : M (eptr * Z * Z) :=
+    p <- as_ptr v ;; l <- len v ;; c <- capacity v ;; ret (p, l, c).
+
+  (* buf = (ptr as *mut u8).sub(next_aligned(size_of::<Header>(), align_of::<T>())) -- the distance is
+     computed from align_of::<T>(), not from the alignment the block was obtained with *)
+  Definition from_raw_part (p : eptr) : M handle :=
+    (if release cfg then ret tt else match p with PNull => panic | _ => ret tt end) ;;;
+    a <- lift_opt (next_aligned HEADER_SIZE (ealign cfg)) ;;
+    x <- byte_of p ;;
+    ret (At (fst x) (snd x - a)).
+
+  Definition from_raw_parts (p : eptr) (l c : Z) : M handle :=
+    (if release cfg then ret tt else match p with PNull => panic | _ => ret tt end) ;;;
+    a <- lift_opt (next_aligned HEADER_SIZE (ealign cfg)) ;;
+    x <- byte_of p ;;
+    let h := At (fst x) (snd x - a) in
+    (* debug_assert: the header words read through buf equal length and capacity *)
+    (if release cfg then ret tt else y <- hdr_block h ;; if h_len (snd y) =? l then ret tt else panic) ;;;
+    (if release cfg then ret tt else y <- hdr_block h ;; if h_cap (snd y) =? c then ret tt else panic) ;;;
+    ret h.
+
+  (* into_raw_parts followed by from_raw_part / from_raw_parts *)
+  Definition raw_roundtrip (v : nat) (three : bool) : M (Z * Z) :=
+    r <- into_raw_parts v ;;
+    let '(p, l, c) := r in
+    h <- (if three then from_raw_parts p l c else from_raw_part p) ;;
+    set_handle v (Some h) ;;;
+    ret (l, c).
 
   (* mini_vec![e; n] with an element expression that creates a fresh value per evaluation *)
   Definition macro_repeat (v : nat) (n : Z) : M unit :=
